@@ -248,6 +248,9 @@ func init() {
 		"log": math.Log, "log2": math.Log2, "log10": math.Log10, "sin": math.Sin, "cos": math.Cos, "tan": math.Tan, "asin": math.Asin, "acos": math.Acos,
 		"atan": math.Atan, "sinh": math.Sinh, "cosh": math.Cosh, "tanh": math.Tanh, "cbrt": math.Cbrt, "expm1": math.Expm1, "log1p": math.Log1p,
 		"rint": math.RoundToEven, "nearbyint": math.RoundToEven, "exp10": func(x float64) float64 { return math.Pow(10, x) },
+		// gamma is the gamma function itself here (pinned by cli/test.yaml "gamma, tgamma, lgamma functions"), not C's
+		// log-gamma as in jq
+		"gamma": math.Gamma, "lgamma": func(x float64) float64 { v, _ := math.Lgamma(x); return v }, "tgamma": math.Gamma,
 	} {
 		reg(name+"/0", mathRef(name, f))
 	}
